@@ -199,7 +199,7 @@ def gen_transport_id(rng, kind=None, namelen=None):
     elif kind == "iscsi1":
         v["tpid_format"] = 1
         v["iscsi_name"] = gen_iscsi_name(rng, namelen)
-        v["iscsi_initiator_session_id"] = "%012x" % rng.getrandbits(48)
+        v["iscsi_initiator_session_id"] = rng.choice(["%012x", "%012X", "%x", "%X"]) % rng.getrandbits(48)
     elif kind == "sas":
         v["sas_address"] = gen.byte_string(rng, 8)
     elif kind == "sop":
